@@ -39,7 +39,7 @@ pub fn make_config(fri: &crate::kit::FriSc) -> SC {
     let perm = default_perm();
     let hash = MyHash::new(perm.clone());
     let compress = MyCompress::new(perm.clone());
-    let val_mmcs = MyMmcs::new(hash, compress, 0, rand::rngs::SmallRng::seed_from_u64(11));
+    let val_mmcs = MyMmcs::new(hash, compress, CAP_HEIGHT, rand::rngs::SmallRng::seed_from_u64(11));
     let challenge_mmcs = ChallengeMmcs::new(val_mmcs.clone());
     let fri_params = p3_fri::FriParameters {
         log_blowup: fri.log_blowup,
